@@ -51,6 +51,10 @@ def ladder_cases(top):
             yield quote((unit * (L // len(unit) + 1))[:L])
     for dup in (('"a"', '"a"'), ('"a"', '"b"', '"a"'), ('"a"', '"a"', '"b"'), ('""', '""'), ('"x, y"', '"z"', '"x, y"')):
         yield ", ".join(dup)  # members equal to one another (the last one repeating an earlier one)
+    # member counts around every power of two (255, 256, 257, 258, ... 1025): thresholds of counters and caches
+    for k in range(6, 11):
+        for n in (2 ** k - 1, 2 ** k, 2 ** k + 1, 2 ** k + 2):
+            yield ", ".join(quote("u%d@example.org" % i) for i in range(n))
     for n in range(2, 41):
         yield ", ".join(quote("m%d, x" % i) for i in range(n))
         yield ",".join(quote("Doe, John <j%d@example.org>" % i) for i in range(n))
